@@ -257,6 +257,25 @@ FAMILIES = (
     + FAMILY("copy", 'function f(){ extra.x(); }', [dict(files=ASSETS), dict(files={"assets/data/extra/function/x.mcfunction": "say other x", "assets/pack.png": "PNG2"})],
              header='#copy "assets"\n#override extra\n', tags=["header", "disk"])
 )
+# ---- strengthening round 3: the INSERTION paths of the iterated sets.  `DataPack.ints` (iterated by build() to emit the `__int__` constants)
+# is filled through eight `add_int(...)` calls; each project below goes through some of them with several other constants, so that a
+# non-int element (which sits in the set by its randomised hash) changes the order of the emitted lines between hash seeds.
+SETSITE = [
+    P("ints_expr_mod", 'function f(){ $a := $b % 7 + 3 * $c; $d := ($e % 1000) * 12; $g := $h / 5 % 11; }', tags=["sets", "setsite"]),
+    P("ints_expr_mod2", 'function f(){ $a := $b % 1024; $c := $d * 40 % 9 + $e; $x *= 6; $y %= 25; } function g(){ $p := ($q + 1) % 360 * 2; }', tags=["sets", "setsite"]),
+    P("ints_expr_muldiv", 'function f(){ $a := $b * 6 / 4; $c := ($d + 2) * 100 / 9; $e := $f * 31 * $g / 17; }', tags=["sets", "setsite"]),
+    P("ints_expr_float", 'function f(){ $a := $b * 1.5; $c := $d / 0.25; $e := $f * 0.3; $g := $h / 1.7; $i := $j * 20; }', tags=["sets", "setsite"]),
+    P("ints_expr_intmin", 'function f(){ $a := $b + -2147483648; $c := $d - -2147483648; $e := $f * 9; $g := $h % 13; }', tags=["sets", "setsite"]),
+    P("ints_math", 'function f(){ $r = Math.random(min=-2147483648, max=5); $s = Math.sqrt($x); $t *= 77; $u %= 19; $v /= 300; }', tags=["sets", "setsite"]),
+    P("ints_mixed", 'function f(){ $a *= 8; $b := $c % 50 * 3.5; $d := $e * 12 - $f / 0.2; $s = Math.sqrt($d); $g %= 1000; }', cert=CUSTOM, tags=["sets", "setsite", "sets-names"]),
+    # sets of the header / GUI that an iteration site mentions: every statement that adds to them
+    P("sets_header_paths", 'function otherns.g(){ say "o"; } function thirdns.h(){ say "t"; } function f(){ if (mykind entity @s || kind2 entity @s) { say "k"; } }',
+      header='#override otherns\n#override thirdns\n#command execute if mykind\n#command execute if kind2\n#static "keep"\n#static "keep2"\n',
+      pre_files={"data/TEST/keep/a.txt": "A", "data/TEST/keep2/b.txt": "B"}, only=["CLI"], tags=["sets", "setsite", "header", "disk"]),
+    P("sets_gui_single", 'Item.create(it, stone, "Name"); Item.create(it2, dirt, "N2"); GUI.template(g2, ["ab"], block); GUI.registers(g2, "a", [it], $v); '
+      'GUI.registers(g2, "b", [it2], $v); GUI.create(g2);', pf="41", tags=["sets", "setsite"]),
+]
+FAMILIES = FAMILIES + SETSITE          # treated like family members by the history experiment (each after itself + a sample), all seeds
 POOL += FAMILIES
 ENTRIES = ["TEST", "PYJMC", "CLI"]
 
@@ -484,8 +503,13 @@ def main(tier: str) -> int:
                                                       set(next(p for p in POOL if p["id"] == i)["tags"]) & {"disk", "multi", "sets", "header", "mutator"})]
                 for e in seed_entries}
     seed_jobs = [(e, s) for e in seed_entries for s in ["0"] + seeds]
+    # round 3: the projects that populate sets (tag `sets`) under further seeds: 8 seeds + a random one in all
+    more_seeds = ["4", "5", "6", "7"]
+    set_ids = {e: [i for i in seed_ids[e] if "sets" in next(p for p in POOL if p["id"] == i)["tags"]] for e in seed_entries}
+    more_jobs = [(e, s) for e in seed_entries for s in more_seeds]
     with ThreadPoolExecutor(max_workers=NCPU) as ex:
         seed_res = list(ex.map(lambda es: run_seq(items(es[0], seed_ids[es[0]]), hashseed=es[1])["results"], seed_jobs))
+        more_res = list(ex.map(lambda es: run_seq(items(es[0], set_ids[es[0]]), hashseed=es[1])["results"], more_jobs))
     seed_by = dict(zip(seed_jobs, seed_res))
     seed_diffs = []
     n_seed = 0
@@ -495,6 +519,11 @@ def main(tier: str) -> int:
                 n_seed += 1
                 if not same(seed_by[(e, "0")][k], seed_by[(e, s)][k]):
                     seed_diffs.append((e, s, b))
+    for (e, s), res in zip(more_jobs, more_res):
+        for b, r in zip(set_ids[e], res):
+            n_seed += 1
+            if not same(seed_by[(e, "0")][seed_ids[e].index(b)], r):
+                seed_diffs.append((e, s, b))
 
     lap("seeds")
     # (4) what does a run write?  (whole pool through each entry point, state diff) — and, in the same processes, what does the pool
@@ -504,14 +533,24 @@ def main(tier: str) -> int:
     if t:
         trace_spec = dict(sites=[dict(file=s["file"], func=s["func"], line=s["line"], end_line=s["end_line"], expr=s["expr"], evaluable=s["evaluable"])
                                  for s in t["set_sites"]],
-                          set_attrs={a: o for a, (_, o) in t["set_attrs"].items()}, fields=list(t["header"]["cleared"]))
+                          set_attrs={a: o for a, (_, o) in t["set_attrs"].items()}, fields=list(t["header"]["cleared"]),
+                          inserts=[dict(file=s["file"], func=s["func"], line=s["line"], end_line=s["end_line"]) for s in t["set_insertions"]],
+                          set_elems={a: el for a, (el, _) in t["set_attrs"].items()})
     with ThreadPoolExecutor(max_workers=NCPU) as ex:
         sdr = list(ex.map(lambda e: run_seq(items(e, ids), statediff=True, **(dict(trace=trace_spec) if trace_spec else {})), ENTRIES))
     sd = [r["statediff"] for r in sdr]
     written = sorted({p for l in sd for p in (l or [])})
     outside = [p for p in written if classify_state(p, t) is None]
     site_reach, attr_size, field_mutators = [], {}, {}
+    insert_reach, type_errors = [], []
     if t:
+        for s_ in t["set_insertions"]:
+            nm = s_["set"].split(".")[-1].split(":")[-1]
+            iters = [k for k, st in enumerate(t["set_sites"]) if re.search(r"\b%s\b" % re.escape(nm), st["expr"])
+                     or (nm in ("conditions",) and "valid_condition_kinds" in st["expr"])]
+            insert_reach.append(dict(set=s_["set"], site=f"{s_['file']}:{s_['func']}:{s_['line']}", text=s_["text"], via=s_["via"], compiles_reached=0,
+                                     compiles_with_2_or_more_elements=0, projects=[], _iter_sites=set(iters),
+                                     iterated_in_hash_order=any(t["set_sites"][k]["cls"] in ("UIntOrdered", "USeedOrdered") for k in iters)))
         site_reach = [dict(site=f"{s['file']}:{s['func']}:{s['line']}:{s['expr'][:50]}", elem=s["elem"], cls=s["cls"], compiles_reached=0,
                            compiles_with_2_or_more=0, max_elements=0, projects=[]) for s in t["set_sites"]]
         for e, r in zip(ENTRIES, sdr):
@@ -527,6 +566,17 @@ def main(tier: str) -> int:
                     sr["max_elements"] = max(sr["max_elements"], n)
                 for a, n in (tr.get("set_sizes") or {}).items():
                     attr_size[a] = max(attr_size.get(a, 0), n)
+                for k in (tr.get("inserts") or {}):
+                    ir = insert_reach[int(k)]
+                    ir["compiles_reached"] += 1
+                    sizes_ = [n for k2, n in (tr.get("sites") or {}).items() if int(k2) in ir["_iter_sites"]]
+                    attr_n = (tr.get("set_sizes") or {}).get(ir["set"], -1)
+                    if any(n >= 2 for n in sizes_) or attr_n >= 2:
+                        ir["compiles_with_2_or_more_elements"] += 1
+                        if len(ir["projects"]) < 4 and f"{e}:{it['id']}" not in ir["projects"]:
+                            ir["projects"].append(f"{e}:{it['id']}")
+                for te in tr.get("set_type_errors") or []:
+                    type_errors.append(dict(te, entry=e, project=it["id"]))
                 for f in tr.get("mutated") or []:
                     field_mutators.setdefault(f, set()).add(it["id"])
 
@@ -754,6 +804,39 @@ def main(tier: str) -> int:
         found = True
         ck.violation(dict(kind="hash-seed-dependent", entry=e, project=dict(by[b], entry=e), seeds=["0", alt[0]],
                           expected="byte-identical result under every PYTHONHASHSEED", difference=describe_diff(r0, alt[1])))
+    # round 3: an element whose type is not the annotated element type of its set (`set[int]` holding a str): the classification of the
+    # iteration sites of that set (UIntOrdered: "ints iterate in a seed-independent order") no longer holds.  Search the seeds for the
+    # end-to-end pair on the project that produced it.
+    rep_type = set()
+    for te in type_errors:
+        key = (te["set"], te["project"])
+        if key in rep_type or te["project"] in rep_seed or len(rep_type) >= 3:
+            continue
+        rep_type.add(key)
+        e, b = te["entry"], te["project"]
+        r0 = run_seq(items(e, [b]), hashseed="0")["results"][0]
+        alt = None
+        for s2 in ["1", "2", "3", "4", "5", "6", "7", "8", "9", "10", "11", "12"]:
+            r1 = run_seq(items(e, [b]), hashseed=s2)["results"][0]
+            if not same(r0, r1):
+                alt = (s2, r1)
+                break
+        what = (f"{te['set']} is annotated {te['annotated']} but holds {te['element']} ({te['type']}) after compiling this project: a set of ints "
+                "iterates in a seed-independent order, any other element sits in it by its randomised hash")
+        if alt:
+            found = True
+            rep_seed.add(b)
+            ck.violation(dict(kind="hash-seed-dependent", entry=e, project=dict(by[b], entry=e), seeds=["0", alt[0]], cause=what,
+                              expected="byte-identical result under every PYTHONHASHSEED", difference=describe_diff(r0, alt[1])))
+        else:
+            ck.violation(dict(kind="set-element-type", entry=e, project=dict(by[b], entry=e), what=what, element=te), no_input=not found)
+    # round 3: every code path that INSERTS into a set which some site iterates in hash order must be exercised by the pool (in a compile
+    # where the iteration sees >= 2 elements) — otherwise the seed comparison says nothing about that path (fail closed)
+    unreached = [r for r in insert_reach if r["iterated_in_hash_order"] and not r["compiles_with_2_or_more_elements"]]
+    if unreached:
+        ck.violation(dict(kind="set-insertion-path-not-exercised", sites=[dict(set=r["set"], site=r["site"], text=r["text"]) for r in unreached],
+                          what="the pool of harness/c12.py has no project that goes through this insertion into a set iterated in hash order "
+                               "(with >= 2 elements): add one to SETSITE"), no_input=not found)
     # memos keyed by less than what their value depends on (cache audit): one report per cache, with the end-to-end pair when the pool has it
     rep_cache = set()
     for w in witnesses:
@@ -830,6 +913,10 @@ def main(tier: str) -> int:
         set_sites_not_reached_with_2_elements=[r["site"] for r in site_reach if not r["compiles_with_2_or_more"] and r["max_elements"] >= 0
                                                and not (r["compiles_reached"] and r["max_elements"] < 0)],
         set_attribute_max_elements=dict(sorted(attr_size.items())),
+        set_insertion_reach=[{k: v for k, v in r.items() if not k.startswith("_")} for r in insert_reach],
+        set_insertion_sites_not_reached_with_2_elements=[f"{r['set']} <- {r['site']} {r['text']}" for r in insert_reach if not r["compiles_with_2_or_more_elements"]],
+        set_element_type_errors=type_errors[:6], seeds_for_set_projects=["0"] + seeds + more_seeds,
+        set_projects={e: len(v) for e, v in set_ids.items()},
         seed_projects={e: len(v) for e, v in seed_ids.items()},
         globals_written=written, globals_written_outside_model=outside,
         persistent_functools_caches=sorted(cache_rows.values(), key=lambda c: c["cache"]), memo_witnesses=witnesses[:6],
